@@ -481,6 +481,15 @@ example : (Whole.run 12 pushW).cpu.regs.sp = 0xFF08 ∧
     Timer.readTMA (Whole.run 13 pushW).b.m.timer = 0x07 ∧ Timer.readTAC (Whole.run 13 pushW).b.m.timer = 0xf9 := by
   decide +kernel
 
+/-- `whole_timer_irq_spec` on the machine `demoTimer` of Proofs/Whole.lean (one cycle before a TIMA overflow, IF = 0):
+    its hypotheses hold, the documented timer reports the overflow for this cycle, and IF bit 2 is raised by it -/
+example : demoTimer.cycle.stopped = false ∧ OneTimerWrite demoTimer ∧ timerSlot demoTimer = none ∧
+    Spec.Timer.overflows (Tetro.C12.abs demoTimer.b.m.timer) none = true ∧
+    (afterCpu demoTimer).2.m.intr.ifl.testBit 2 = false ∧ demoTimer.cycle.b.m.intr.ifl.testBit 2 = true := by
+  decide +kernel
+example : Tetro.C12.MInv demoTimer.b.m.timer :=
+  ⟨by decide, by decide, by decide, by decide, by decide, rfl, by decide, by decide⟩
+
 /-! ## 2. the LCD -/
 
 /-- the LCD operation a bus write is: FF40 LCDC, FF41 STAT, FF44 LY, FF45 LYC -/
@@ -699,6 +708,22 @@ example : Whole.construct offImg false false = some offW := rfl
     three ticks (the first VBlank request comes at cycle 16 415, `c14_vblank_once`) -/
 example : (Whole.run 4 demo).cpu.regs.exited = false ∧ lcdBefore 3 demo = [.tick, .tick, .tick] ∧
     Tetro.LcdLemmas.sinceOf (lcdBefore 3 demo) = some 3 := by decide +kernel
+
+/-- `whole_lcd_irq` with both requests raised: the all-NOP machine with the LCD state at the last cycle of line 143
+    (mode 0, VBlank STAT source enabled, IF = 0): the PPU step of this cycle enters line 144 and requests VBlank and
+    STAT; IF becomes 03.  (Reaching this point from power-on takes 16 415 cycles of the pixel pipeline – too many
+    for kernel evaluation, hence a hand-made start state; `c14_vblank_once` places the event.) -/
+def demoVbl : Whole :=
+  { demo with b := { demo.b with m := { demo.b.m with
+      ppu := { Lcd.init with mode := 0, ticks := 144 * 114, ly := 143, firstLine := false, oamCorrupt := false,
+                             vblInt := true },
+      oam := { demo.b.m.oam with corrupt := false },
+      intr := { demo.b.m.intr with ifl := 0 } } } }
+
+example : demoVbl.cycle.stopped = false ∧
+    (Lcd.tick (afterCpu demoVbl).2.m.ppu).map (fun r => (r.vbl, r.stat)) = some (true, true) ∧
+    (afterCpu demoVbl).2.m.intr.ifl = 0 ∧ demoVbl.cycle.b.m.intr.ifl = 3 ∧ demoVbl.cycle.b.m.ppu.mode = 1 := by
+  decide +kernel
 
 /-! ## 3. the cartridge -/
 
@@ -1096,5 +1121,31 @@ example : (joypTrace [some (4, true), none, none, none, none, none, none, none, 
     ((runEvents [some (4, true), none, none, none, none, none, none, none, none, none, none] allW).b.read 0xFF00).1
       = 0xDE := by
   decide +kernel
+
+/-- an MBC3 image (type 0F, 4 ROM banks) whose program enables RAM access and selects clock register 08:
+    `LD A,0A; LD (0000),A; LD A,08; LD (4000),A` -/
+def rtcImg : Cart.Image :=
+  { len := 0x10000,
+    byte := fun i =>
+      if i = 0x147 then 0x0F else if i = 0x148 then 0x01 else if i = 0x149 then 0x00
+      else if 0x100 ≤ i ∧ i < 0x10a then
+        [0x3E, 0x0A, 0xEA, 0x00, 0x00, 0x3E, 0x08, 0xEA, 0x00, 0x40].getD (i - 0x100) 0
+      else 0 }
+
+def rtcW : Whole := (Whole.construct rtcImg false false).getD demo
+
+private theorem rtcW_constructed : Whole.construct rtcImg false false = some rtcW := by
+  have h : (Whole.construct rtcImg false false).isSome = true := by decide +kernel
+  unfold rtcW
+  cases hc : Whole.construct rtcImg false false with
+  | none => rw [hc] at h; cases h
+  | some w => rfl
+
+/-- the hypotheses of `c10_whole_clock_read` hold for it after 12 cycles -/
+example : WholeOk rtcW := construct_ok _ _ _ _ rtcW_constructed
+example : rtcW.b.m.cart = .mbc3 (Cart.Mbc3.new (Cart.pagesOf rtcImg) 4 Cart.freshRam 1) := rfl
+example : (Whole.run 12 rtcW).stopped = false ∧
+    Spec.Cart.clockSelected (Tetro.CartSim.hist (cartTrace 12 rtcW)) = some 8 ∧ Tetro.C09.InWindow 0xA000 :=
+  ⟨by decide +kernel, by decide +kernel, by decide, by decide⟩
 
 end Tetro.WholeTraces
